@@ -9,6 +9,7 @@ import Gzx.Model.AztecRS
 import Gzx.Gen.C11Aztec
 import Gzx.Model.DetMulti
 import Gzx.Model.MultiSA
+import Gzx.Model.ReaderGlue
 namespace Gzx.Driver.C06Rest
 open Gzx Gzx.Det Gzx.Driver.C06Det
 
@@ -217,7 +218,32 @@ def handleSA : List String → Option String
     | none => "bad-op"
   | _ => none
 
+/-! ## reader glue -/
+
+def handleGlue : List String → Option String
+  | ["gluecb", kind] => some <|
+    let hint : Option Glue.HintVal :=
+      if kind == "absent" then none
+      else if kind == "callback" then some (.callback false)
+      else if kind == "nilcallback" then some (.callback true)
+      else some (.other kind)
+    match Glue.upceanCallback hint with
+    | .ok b => s!"ok called={b}"
+    | .error e => showFault e
+  | ["glueaz", d0, c0, d1, c1] => some <|
+    let detect : Bool → Option Nat := fun m => if m then (if d1 == "1" then some 1 else none) else (if d0 == "1" then some 0 else none)
+    let decode : Nat → Option Nat := fun d => if d = 0 then (if c0 == "1" then some 0 else none) else (if c1 == "1" then some 1 else none)
+    match Glue.aztecRead detect decode with
+    | .ok r => s!"ok attempt={r}"
+    | .notFound => "ERR:notfound"
+    | .format => "ERR:format"
+    | .reader => "ERR:reader"
+  | _ => none
+
 def handle (args : List String) : String :=
+  match handleGlue args with
+  | some r => r
+  | none =>
   match handleMulti args with
   | some r => r
   | none =>
